@@ -554,7 +554,37 @@ def c16(ctx):
     ctx.classify(reports)
 
 
+SMPCFG = dict(DATA33, MaxFlight=2, MaxSend=0)
+
+
+def c11(ctx):
+    q = ctx.quick()
+    inv = ["SMPSuccessSound", "SMPFailureSound", "SMPNotStuck", "NoHonestReject"]
+    ctx.model("c11-smp", dict(SMPCFG, MaxSMPStart=2, MaxSMPAnswer=2, MaxSMPAbort=0 if q else 1, Secrets=[1, 2]), inv, timeout=2400)
+    ctx.model("c11-smp-v2-traffic", dict(PolA=1, PolB=1, Setup="ake", MaxFlight=2, MaxSend=1, MaxSMPStart=1, MaxSMPAnswer=1, Secrets=[1, 2]), inv)
+    ctx.export_validate("c11x", dict(SMPCFG, MaxSMPStart=1, MaxSMPAnswer=1, MaxSend=0 if q else 1, Secrets=[5, 6]), "none", drain=True,
+                        maxsched=300 if q else 4000)
+    ctx.export_validate("c11x-v2", dict(PolA=1, PolB=1, Setup="ake", MaxFlight=2, MaxSMPStart=1, MaxSMPAnswer=1, Secrets=[1, 3]), "none", drain=True,
+                        maxsched=100 if q else 2000)
+    ctx.random_validate("smp", 48 if q else 480, 4 if q else 10)
+    ctx.attack_catalogue("relay")
+
+
+def c12(ctx):
+    q = ctx.quick()
+    inv = ["SMPSuccessSound", "SMPFailureSound", "SMPNotStuck"]
+    ctx.model("c12-smp-abort", dict(SMPCFG, MaxSMPStart=2, MaxSMPAnswer=2, MaxSMPAbort=1, Secrets=[1]), inv, timeout=2400)
+    ctx.model("c12-smp-bag", dict(SMPCFG, NetMode="bag", MaxDup=1 if q else 2, MaxDrop=1, MaxSMPStart=1, MaxSMPAnswer=1, MaxSMPAbort=1, Secrets=[1]),
+              ["SMPSuccessSound", "SMPFailureSound"], timeout=2400)
+    ctx.export_validate("c12x-bag", dict(SMPCFG, NetMode="bag", MaxDup=1, MaxDrop=1, MaxSMPStart=1, MaxSMPAnswer=1, MaxSMPAbort=1, Secrets=[4]), "none",
+                        drain=True, maxsched=400 if q else 6000)
+    ctx.random_validate("smpdev", 64 if q else 960, 3 if q else 6)
+    ctx.random_validate("smp", 32 if q else 320, 4 if q else 10)
+
+
 TABLE = {
+    "C11": c11,
+    "C12": c12,
     "C15": c15,
     "C16": c16,
     "C01": c01,
